@@ -896,13 +896,15 @@ def conc_family(ctx, prop_id, tests, rule, seq_extra=None):
     ob, dis, details = proof_obligations(ctx, prop_id)
     rounds = 6 if ctx.tier == 'quick' else 60
     lines, races, stderr = vcheck.conc_run(ctx, rounds)
-    st = collections.Counter()
+    st = collections.Counter(); cdistinct = set()
     if lines is not None:
         for l in lines:
             tk = l.split()
             if not any(tk[1].startswith(t) for t in tests):
                 continue
             st[tk[1] + '-' + tk[2]] += 1
+            if tk[2] == 'ok':
+                cdistinct.add((tk[1], ' '.join(tk[3:5])))
             if tk[2] != 'ok':
                 ctx.violations.append(('concurrent workload %s: %s' % (tk[1], ' '.join(tk[3:])), write_replay(ctx, 'conc_%s.txt' % tk[1], '\n'.join(lines) + '\n' + stderr), True))
             elif len(ctx.samples) < 4:
@@ -912,9 +914,10 @@ def conc_family(ctx, prop_id, tests, rule, seq_extra=None):
                                    write_replay(ctx, 'race_report.txt', stderr), True))
     if seq_extra:
         seq_extra(ctx, st)
-    ctx.cov['evaluations'] = sum(st.values())
-    ctx.cov['distinct_nontrivial'] = sum(1 for k in st if k.endswith('-ok')) + len(set(l.split()[1] + l.split()[3] for l in (lines or []) if len(l.split()) > 3))
-    ctx.cov['traces_validated_against_impl'] = sum(v for k, v in st.items() if k.endswith('-ok'))
+    # sequential part (seq_extra -> s7_check) has already put its own counts into ctx.cov: add the workloads to them
+    ctx.cov['evaluations'] = ctx.cov.get('evaluations', 0) + sum(st.values())
+    ctx.cov['distinct_nontrivial'] = ctx.cov.get('distinct_nontrivial', 0) + len(cdistinct)   # distinct (workload, goroutine/key configuration)
+    ctx.cov['traces_validated_against_impl'] = ctx.cov.get('traces_validated_against_impl', 0) + sum(v for k, v in st.items() if k.endswith('-ok'))
     ctx.cov['workload_outcomes'] = dict(st)
     ctx.cov['race_reports'] = races
     ctx.assumptions += ['the Go memory model, sync.Mutex/RWMutex/Once and the runtime scheduler are modelled as sequentially consistent primitives, not verified',
